@@ -569,10 +569,14 @@ def r18d(ctx):
                     and dotted(lp.iter) not in stack_names.get(g.qual, set())):
                 continue
             body_nodes = [x for s_ in lp.body for x in ast.walk(s_)]
-            deciding = all(isinstance(x, (ast.If, ast.Assign, ast.Continue, ast.Break, ast.Pass, ast.expr, ast.expr_context, ast.boolop,
-                                          ast.unaryop, ast.cmpop, ast.operator, ast.keyword)) for x in body_nodes) \
-                and any(isinstance(x, (ast.Break, ast.Continue)) for x in body_nodes) \
-                and any(isinstance(x, ast.Assign) and isinstance(x.value, ast.Constant) and isinstance(x.value.value, bool) for x in body_nodes)
+            # a deciding loop: tests, assignments, continue / break / a boolean answer - it does no work on the traversal state
+            effects = [x for x in body_nodes if isinstance(x, ast.Call) and isinstance(x.func, ast.Attribute)
+                       and (self_attr(x.func) not in (None, "resolve_expander", "resolve_builder")
+                            or (x.func.attr in ("append", "extend", "pop") and dotted(x.func.value) in stack_names.get(g.qual, set()) | {"work", "processed_children"}))]
+            answers = [x for x in body_nodes if (isinstance(x, ast.Return) and isinstance(x.value, ast.Constant) and isinstance(x.value.value, bool))
+                       or (isinstance(x, ast.Assign) and isinstance(x.value, ast.Constant) and isinstance(x.value.value, bool))]
+            deciding = not effects and bool(answers) and not any(isinstance(x, (ast.For, ast.While, ast.Yield, ast.YieldFrom)) for x in body_nodes) \
+                and any(isinstance(x, (ast.Break, ast.Continue, ast.Return)) for x in body_nodes)
             if deciding and not any(reaches_expand(s_) for s_ in lp.body):
                 ctx.violation("R18d", f, g.short, lp, "leaf shortcut uses expand()",
                               f"the loop `for {norm(lp.target, 20)} in {norm(lp.iter, 30)}` decides whether the ancestor scan is needed without "
